@@ -103,6 +103,7 @@ class Scheduler(object):
         self.lock_info = {}  # lock ordinal -> (type name of the object that created it, site, ids of the `self` chain)
         self.lock_counter = itertools.count(1)
         self.owners = {}  # id(object) -> prefix given by the scenario (e.g. "x2" for the executor of layer 2)
+        self.lock_hooks = []  # callables(info) run when a controlled lock is created (info = _creation_info())
         self._abort_lock = _real_allocate()
 
     # ------------------------------------------------------------------ recording
@@ -494,7 +495,9 @@ class Lock(object):
         self._lid = None
         if s is not None:
             self._lid = next(s.lock_counter)
-            s.lock_info[self._lid] = _creation_info()
+            info = s.lock_info[self._lid] = _creation_info()
+            for h in s.lock_hooks:
+                h(info)
 
     def _can_acquire(self, rec):
         return self._owner is None or (self._re and self._owner is rec)
